@@ -91,6 +91,17 @@ def run(res, proofs_ok, proofs_why):
         else:
             res.violation({"property": "C02", "kind": "obligation", "obligation": "Current_C02.v: safe_cfg current_cfg = true does not hold: " + log[-800:],
                            "measured_cfg": cfg}, found_input=False)
+    # a call that exhausts its retry budget (daemon dead after the odd store and four cells of an update)
+    # must leave the client's record alone: the next call still returns one complete publication
+    out3 = c.run_lines(binary, ["stall 3"], timeout=200)[0].split()
+    res.evaluations += 1
+    cells3 = [int(x) for x in out3[4].split(",")] if len(out3) > 4 and out3[4] != "E" else None
+    if cells3 is not None and _shm.rec_index(cells3) is None:
+        res.violation({"property": "C02", "kind": "schedule",
+                       "case": {"schedule": "stall 3 (client holds publication 1; publication 2 completes; the daemon dies after the odd generation store and four cells of "
+                                            "publication 3, right after the client's first generation load; the call gives up after its retry budget; next call)",
+                                "impl": " ".join(out3), "why": ["the call after the one that gave up returned a mixture of two publications: %s" % cells3]},
+                       "how_to_replay": "./check C18 --replay <this file>"})
     # known finding C02-aba on the real code: 32767 publications inside one snapshot() call
     toks = [("W",)] * 11 + [("N",)] + [("R", 0, None)] * 4 + [("J", 65534)] + [("W",)] * 11 + [("R", 0, None)] * 9
     ln = _shm.line_of(cfg, toks)
